@@ -119,12 +119,14 @@ Proof. unfold space0. apply span_len. Qed.
 
 Lemma shrinks_parse_key_value : shrinks parse_key_value.
 Proof.
-  intros i a r H. unfold parse_key_value in H. destruct (alphanumeric1 i) as [[name r0]|] eqn:E0; [|discriminate].
-  apply shrinks_alphanumeric1 in E0. pose proof (space0_len r0) as L1. pose proof (space0_len (space0 r0)) as L1'.
-  destruct (strip_prefix (bs "=") (space0 (space0 r0))) as [r2|] eqn:E2.
-  - apply strip_prefix_len in E2. pose proof (space0_len r2) as L3.
-    destruct (alphanumeric1 (space0 r2)) as [[v r3]|] eqn:E3; inversion H; subst; [apply shrinks_alphanumeric1 in E3; lia | lia].
-  - inversion H; subst. lia.
+  intros i a r H. unfold parse_key_value in H. destruct (span1 is_name_char i) as [[name r0]|] eqn:E0; [|discriminate].
+  apply shrinks_span1 in E0.
+  destruct (strip_prefix (bs "=[") r0) as [r1|] eqn:E1; [|inversion H; subst; exact E0].
+  apply strip_prefix_len in E1.
+  destruct (span1 is_name_char r1) as [[v r2]|] eqn:E2; [|inversion H; subst; exact E0].
+  apply shrinks_span1 in E2.
+  destruct (strip_prefix (bs "]") r2) as [r3|] eqn:E3; inversion H; subst; [|exact E0].
+  apply strip_prefix_len in E3. lia.
 Qed.
 
 (* every use of separated_list0/1 in the model is covered *)
